@@ -559,7 +559,9 @@ def run_mat(case, ctx):
             rep, C = "bool", C.astype(bool)
         elif h == 5:
             rep, C = "uint8", C.astype(np.uint8) if all(v >= 0 for v in flat) else C
-    if rep is None and h == 6 and all(float(np.float32(v)) == v for v in flat):
+    with np.errstate(all="ignore"):
+        f32_ok = all(float(np.float32(v)) == v for v in flat)
+    if rep is None and h == 6 and f32_ok:
         rep, C = "float32", C.astype(np.float32)
     if rep:
         cls.append("matrix_given_as_" + rep)
